@@ -87,6 +87,16 @@ func OutRoot() string {
 	return Root()
 }
 
+const isolatedBase = 100000
+
+// workerFileIdx: the index used in a worker's file names (isolated workers are named after their job)
+func workerFileIdx(w, shared int, isolated []int) int {
+	if w >= shared {
+		return isolatedBase + isolated[w-shared]
+	}
+	return w
+}
+
 func watchdog(tier string) time.Duration {
 	if s := os.Getenv("VERIF_WATCHDOG_S"); s != "" {
 		if n, err := strconv.Atoi(s); err == nil {
@@ -126,6 +136,17 @@ func Drive(c *Check, tier string, seed int64) int {
 	if nw < 1 {
 		nw = 1
 	}
+	// jobs marked isolated (P["isolated"]=1) get a worker process of their own: they are expected to be able to kill it
+	var isolated []int
+	if !c.SerialJobs {
+		for i, j := range jobs {
+			if j.Param("isolated", 0) == 1 {
+				isolated = append(isolated, i)
+			}
+		}
+	}
+	shared := nw
+	nw += len(isolated)
 	exe, _ := os.Executable()
 	type wres struct {
 		err      error
@@ -140,14 +161,18 @@ func Drive(c *Check, tier string, seed int64) int {
 			defer wg.Done()
 			par <- struct{}{}
 			defer func() { <-par }()
-			logf, _ := os.Create(filepath.Join(outdir, fmt.Sprintf("w%d.log", w)))
+			logf, _ := os.Create(filepath.Join(outdir, fmt.Sprintf("w%d.log", workerFileIdx(w, shared, isolated))))
 			defer logf.Close()
-			cmd := exec.Command(exe, "worker", c.ID, tier, strconv.FormatInt(seed, 10), strconv.Itoa(w), strconv.Itoa(nw), outdir)
+			widx, wn := w, shared
+			if w >= shared {
+				widx = isolatedBase + isolated[w-shared] // this worker runs exactly that job
+			}
+			cmd := exec.Command(exe, "worker", c.ID, tier, strconv.FormatInt(seed, 10), strconv.Itoa(widx), strconv.Itoa(wn), outdir)
 			cmd.Stdout = logf
 			cmd.Stderr = logf
 			cmd.Env = append(os.Environ(), "VERIF_ROOT="+root, "GOTRACEBACK=single")
 			if c.Race {
-				cmd.Env = append(cmd.Env, "GORACE=halt_on_error=0 log_path="+filepath.Join(outdir, fmt.Sprintf("race.w%d", w)))
+				cmd.Env = append(cmd.Env, "GORACE=halt_on_error=0 log_path="+filepath.Join(outdir, fmt.Sprintf("race.w%d", workerFileIdx(w, shared, isolated))))
 			}
 			if err := cmd.Start(); err != nil {
 				results[w].err = err
@@ -177,7 +202,8 @@ func Drive(c *Check, tier string, seed int64) int {
 	total.SetFindings(findings)
 	var inconclusive []string
 	for w := 0; w < nw; w++ {
-		accPath := filepath.Join(outdir, fmt.Sprintf("w%d.json", w))
+		fidx := workerFileIdx(w, shared, isolated)
+		accPath := filepath.Join(outdir, fmt.Sprintf("w%d.json", fidx))
 		a, err := LoadAcc(accPath)
 		if err == nil {
 			total.Merge(a)
@@ -187,10 +213,10 @@ func Drive(c *Check, tier string, seed int64) int {
 			continue
 		}
 		// the worker died: classify
-		logPath := filepath.Join(outdir, fmt.Sprintf("w%d.log", w))
+		logPath := filepath.Join(outdir, fmt.Sprintf("w%d.log", fidx))
 		logb, _ := os.ReadFile(logPath)
 		logs := string(logb)
-		jobIdx, caseIdx := readJournal(filepath.Join(outdir, fmt.Sprintf("w%d.journal", w)))
+		jobIdx, caseIdx := readJournal(filepath.Join(outdir, fmt.Sprintf("w%d.journal", fidx)))
 		switch {
 		case results[w].timedOut:
 			inconclusive = append(inconclusive, fmt.Sprintf("worker %d hit the wall-clock watchdog at job %d case %d", w, jobIdx, caseIdx))
@@ -217,7 +243,13 @@ func Drive(c *Check, tier string, seed int64) int {
 				banner = banner[:3000]
 			}
 			total.job, total.jobIdx, total.caseIdx = job, jobIdx, caseIdx
-			total.Violate(kind, kind, map[string]any{"worker": w, "exit": fmt.Sprint(results[w].err), "banner": banner})
+			sig := kind
+			if job.S != "" {
+				// jobs that name their input get a signature of their own, so that a known finding about one
+				// specific input never hides a crash anywhere else
+				sig = kind + ":" + job.Family + ":" + job.S
+			}
+			total.Violate(kind, sig, map[string]any{"worker": w, "job": job, "exit": fmt.Sprint(results[w].err), "banner": banner})
 		}
 	}
 	if c.Post != nil {
@@ -401,7 +433,7 @@ func Worker(c *Check, tier string, seed int64, widx, nw int, outdir string) int 
 		syscall.Setrlimit(syscall.RLIMIT_AS, &lim)
 	}
 	debug.SetMemoryLimit(3 << 30)
-	debug.SetMaxStack(512 << 20)
+	// the goroutine stack limit is left at Go's default (1 GB on 64-bit): a stack overflow observed here is one a user would see
 	jobs := c.Plan(tier, seed)
 	acc := NewAcc(c.ID)
 	findings, _ := LoadFindings(filepath.Join(Root(), "KNOWN_FINDINGS.txt"))
@@ -412,7 +444,13 @@ func Worker(c *Check, tier string, seed int64, widx, nw int, outdir string) int 
 		defer j.Close()
 	}
 	for i, job := range jobs {
-		if i%nw != widx {
+		iso := !c.SerialJobs && job.Param("isolated", 0) == 1
+		switch {
+		case widx >= isolatedBase:
+			if i != widx-isolatedBase {
+				continue
+			}
+		case iso || i%nw != widx:
 			continue
 		}
 		acc.StartJob(i, job)
